@@ -48,4 +48,11 @@ CHECKS = {
         "quick": {"shards": 4, "budget_s": 40, "min_evals": 100000},
         "thorough": {"shards": 16, "budget_s": 200, "min_evals": 4000000, "extras": ["miri_pure"]},
     },
+    "C26": {
+        "engine": "vp-pure", "level": "exploration",
+        "rule": "1-3 real threads run seeded op lists (should_allow_request, record_success, record_failure, estimated_recovery_time) on the real WriteCircuitBreaker; hook H6 supplies a harness clock (advancing by 0..2x recovery_timeout between scheduling events, including between the clock read and the last_failure_time load) and yield points inside the breaker at which a seeded token scheduler picks the thread that continues; an online monitor samples current_state() at every scheduling event: panic = violation, Closed->Open needs >= threshold failures that can be ordered after the last completed success, <= half_open_max_calls admitted calls per half-open episode; plus a free-running 3-thread stress on the real clock (panic monitor). non-trivial = distinct schedule fingerprints (sequence of (yield point, next thread)) in which two threads were inside the Open branch at once or a failure landed between clock read and load",
+        "assumptions": A_COMMON + ["interleavings are explored at the granularity of the hook yield points plus operation boundaries, not every atomic access", "builds carry overflow checks (dev profile), as the panic-freedom clause needs"],
+        "quick": {"shards": 16, "budget_s": 20, "min_evals": 5000, "min_counters": {"schedules_two_threads_in_open_branch": 100, "schedules_failure_between_clock_read_and_load": 100, "half_open_episodes": 1000}},
+        "thorough": {"shards": 16, "budget_s": 500, "min_evals": 200000, "min_counters": {"schedules_two_threads_in_open_branch": 10000, "half_open_episodes": 100000}},
+    },
 }
